@@ -145,6 +145,12 @@ func (g *Global) instrWrites(in ssa.Instruction, out map[string]bool, skipFresh 
 			}
 		}
 		g.keysForStore(in.Addr, in.Val.Type(), out)
+		if _, isChan := in.Val.Type().Underlying().(*types.Chan); isChan {
+			if fa, ok := in.Addr.(*ssa.FieldAddr); ok {
+				st := fa.X.Type().Underlying().(*types.Pointer).Elem()
+				out[fmt.Sprintf("G|closed|%s|%d", typeKey(st), fa.Field)] = true
+			}
+		}
 	case *ssa.MapUpdate:
 		for _, k := range mapKeys(in.Map.Type()) {
 			out[k] = true
@@ -169,7 +175,11 @@ func (g *Global) instrWrites(in ssa.Instruction, out map[string]bool, skipFresh 
 					g.leafKeys(sl.Elem(), out)
 				}
 			case "close":
-				out["G|closed"] = true
+				k := closedKeyOf(c.Args[0])
+				out[k] = true
+				if k == "G|closed" {
+					out["G|closed*"] = true // may be the channel held in any field
+				}
 			}
 			return
 		}
